@@ -407,3 +407,86 @@ impl Prop for C01Pool {
         shrink_common(s)
     }
 }
+
+/// C15, parallel path: a pool created with a filter must deliver exactly what the unfiltered
+/// sequential analyzer delivers for the sub-trace the filter admits (by the analyzer's own view).
+pub struct C15Pool;
+
+impl Prop for C15Pool {
+    type Scn = Scn;
+    const ID: &'static str = "C15";
+    const ENGINE: &'static str = "poolsim";
+
+    fn rule() -> &'static str {
+        "poolsim part: one evaluation = one (trace with malformed frames, filter, pool configuration, schedule) execution of a real worker pool created with the filter, compared as a multiset with the unfiltered sequential analyzer on the admitted sub-trace; non-trivial = more than one worker, the filter admits some and rejects some frames, and results were delivered"
+    }
+
+    fn runs(tier: Tier) -> u64 {
+        tier.pick(1_000, 40_000)
+    }
+
+    fn panics_are_violations() -> bool {
+        true
+    }
+
+    fn run_wall_limit_s() -> u64 {
+        180
+    }
+
+    fn generate(r: &mut Rng, tier: Tier, _idx: u64) -> Scn {
+        let kind = *r.pick(&PoolKind::ALL);
+        let n = r.urange(2, 5);
+        let mut trace = gen_trace(r, kind, n, true);
+        for p in trace.iter_mut() {
+            if r.chance(1, 8) {
+                let f = *r.pick(&[Fault::IhlSet, Fault::TotalLenLie, Fault::ProtocolSet, Fault::Truncate, Fault::DataOffsetSet, Fault::IpVersionSet]);
+                if tap::apply(r, f, &mut p.frame) {
+                    p.conn = 100_000 + f as usize;
+                }
+            }
+        }
+        let mut cfg = gen_cfg(r, kind, trace.len());
+        cfg.filter = Some(super::c15::gen_filter(r, &trace));
+        let n_sched = tier.pick(2, 6);
+        Scn { cfg, trace, probe: vec![], via_analyzer: r.chance(1, 4), schedules: (0..n_sched).map(|_| r.next_u64()).collect(), iters: tier.pick(4, 10), sched: Sched::Random }
+    }
+
+    fn run(s: &Scn, st: &mut RunStats) -> Result<(), Violation> {
+        let kind = s.cfg.kind;
+        let Some(fspec) = &s.cfg.filter else { return Ok(()) };
+        let f = crate::sut::filter_tcp(fspec);
+        let admit: Vec<Option<bool>> = s.trace.iter().map(|p| super::c15::view(&p.frame).map(|(a, b, sp, dp)| f.should_process(&a, &b, sp, dp))).collect();
+        let sub: Vec<Timed> = s.trace.iter().zip(admit.iter()).filter(|(_, a)| a.unwrap_or(true)).map(|(p, _)| p.clone()).collect();
+        let mut unfiltered = s.cfg.clone();
+        unfiltered.filter = None;
+        let expect = sequential(&unfiltered, &sub)?;
+        let plan = Arc::new(ExecPlan { via_analyzer: s.via_analyzer, cfg: s.cfg.clone(), dispatchers: vec![s.trace.iter().map(|p| p.frame.clone()).collect()], stats_calls: 0, wait_for: None });
+        let n_adm = admit.iter().filter(|a| **a == Some(true)).count();
+        let n_rej = admit.iter().filter(|a| **a == Some(false)).count();
+        st.probe_n("frames_admitted", n_adm as u64);
+        st.probe_n("frames_rejected", n_rej as u64);
+        for p in &s.trace {
+            if p.conn >= 100_000 && p.conn < 200_000 {
+                st.fault(Fault::ALL[(p.conn - 100_000).min(Fault::ALL.len() - 1)].name());
+            }
+        }
+        st.evals = 0;
+        let mut any = false;
+        for seed in &s.schedules {
+            for out in pool::run_plan(plan.clone(), *seed, s.sched, s.iters).map_err(|e| Violation::new("harness-error", "", e))? {
+                st.evals += 1;
+                st.packets += s.trace.len() as u64;
+                st.ev_u64(out.chan.hash);
+                st.interleaving = Some(st.interleaving.unwrap_or(0) ^ crate::rng::mix64(out.chan.hash));
+                compare(kind, &expect, &out.results, "filtered pool vs unfiltered sequential on the admitted sub-trace")?;
+                any |= out.results.iter().any(|r| !r.is_empty());
+            }
+        }
+        st.nontrivial = any && s.cfg.workers > 1 && n_adm > 0 && n_rej > 0;
+        Ok(())
+    }
+
+    fn shrink(s: &Scn) -> Vec<Scn> {
+        shrink_common(s)
+    }
+}
